@@ -487,6 +487,14 @@ def step (st : St) (toks : List String) : St × List Issue :=
     match (kv a "allowed").bind pset, (kv r "reserved").bind pset, (kv i "isolated").bind pset with
     | some a, some r, some i => ({ st with prevSnap := st.snap, prevOptStr := st.optStr, snap := ⟨a, r, i, pc == "pincpu=true", pm == "pinmem=true", [], []⟩ }, [])
     | _, _, _ => (st, [⟨.parse, "PS"⟩])
+  | ["PZ", zs] =>
+    -- C04: the allocations confined to an assigned zone never exceed its capacity
+    if zs == "-" then (st, []) else
+    let bad := (zs.splitOn ",").filter fun z => match z.splitOn ":" with
+      | [_, f] => (f.toInt?.getD 0) < 0
+      | _ => false
+    if bad.isEmpty || (st.lastEv.headD "").startsWith "down-" then (st, []) else
+    report st [if memOvercommitted st then s!"C04:assigned-zone-oversubscribed-while-limits-exceed-machine-memory {bad}" else s!"C04:assigned-zone-oversubscribed {bad}"]
   | ["PO", o] =>
     -- the options the allocation code consults must be those of the active configuration
     let f := fun (k : String) => ((o.splitOn ";").findSome? (fun x => kv x k)).getD "?"
